@@ -471,6 +471,8 @@ pub fn run_c06(tier: &str, sink: &Sink) -> Out6 {
     .map_err(|msg| sink.report("panic:from-tuple", "tuple limits".into(), json!({"engine":"B6","kind":"tuple"}), format!("panic: {}", msg), "returns".into()));
     w.stop.store(true, AO::Relaxed);
     let _ = wd.join();
+    // (iv-b) wide operands in a child process (stack growth with the number of alternatives)
+    let deep = deep_family(tier, sink);
     // (v) labelled measurement: growth of parse+print+min_version time with input length
     let growth = growth_measurement(sink);
     let mut m = BTreeMap::new();
@@ -484,8 +486,129 @@ pub fn run_c06(tier: &str, sink: &Sink) -> Out6 {
     m.insert("distinct_versions_collected".into(), versions.len() as u64);
     m.insert("value_pairs".into(), c.pairs.load(AO::Relaxed));
     m.insert("family_inputs".into(), fam.len() as u64);
+    m.insert("wide_operand_cases_in_child_processes".into(), deep);
     let samples = vec![json!({"input": fam[fam.len() / 2].chars().take(80).collect::<String>()}), json!({"range_pair": [ranges[rn / 2].1.to_string(), ranges[rn - 1].1.to_string()]})];
     Out6 { counters: m, samples, growth }
+}
+
+// ------------------------------------------------------ deep / wide operands ---
+// Operations whose cost in *stack* could grow with the number of alternatives or comparators
+// (a loop rewritten as a recursion; C06-8) abort the process instead of panicking, which no
+// catch_unwind can turn into a verdict. These cases therefore run in a child process (this binary,
+// subcommand `c06-deep`) on a thread with a small stack; the parent turns an abnormal death into a
+// violation. The unchanged crate iterates, so its stack use does not depend on n.
+
+pub const DEEP_CASES: [&str; 9] = ["star-minus-exacts", "exacts-minus-star", "exacts-and-star", "star-and-exacts", "allows", "long-set", "print-parse", "resolver", "exacts-minus-exacts"];
+pub const DEEP_STACK: usize = 256 * 1024;
+
+fn exacts_text(n: u64) -> String {
+    (1..=n).map(|i| format!("{}.0.0", i)).collect::<Vec<_>>().join("||")
+}
+
+/// body of the child process: returns normally, panics (exit 3) or dies
+pub fn deep_child(case: &str, n: u64) {
+    let case = case.to_string();
+    let h = std::thread::Builder::new().stack_size(DEEP_STACK).spawn(move || {
+        let star = Range::parse("*").unwrap();
+        let wide = Range::parse(exacts_text(n)).expect("a list of exact versions parses");
+        match case.as_str() {
+            "star-minus-exacts" => { let r = star.difference(&wide).expect("something is left"); assert!(!r.satisfies(&ver(n, 0, 0, ""))); assert!(r.satisfies(&ver(n, 0, 1, ""))); }
+            "exacts-minus-star" => assert!(wide.difference(&star).is_none()),
+            "exacts-and-star" => { let r = wide.intersect(&star).expect("non-empty"); assert!(r.satisfies(&ver(n, 0, 0, ""))); }
+            "star-and-exacts" => { let r = star.intersect(&wide).expect("non-empty"); assert!(r.satisfies(&ver(1, 0, 0, ""))); }
+            "allows" => { assert!(star.allows_any(&wide)); assert!(wide.allows_any(&star)); let _ = star.allows_all(&wide); let _ = wide.allows_all(&star); }
+            "long-set" => {
+                let t = (0..n).map(|i| format!(">={}.0.0", i % 7)).collect::<Vec<_>>().join(" ");
+                let r = Range::parse(t).expect("a long comparator set parses");
+                assert!(r.satisfies(&ver(6, 0, 0, "")) && !r.satisfies(&ver(5, 0, 0, "")));
+            }
+            "print-parse" => { let t = wide.to_string(); let r2 = Range::parse(&t).expect("printed form parses"); assert!(r2 == wide); let _ = format!("{:?}", wide); let _ = wide.clone(); let _ = wide.min_version(); }
+            "resolver" => {
+                let list: Vec<Version> = (0..n).map(|i| ver(i % 97, i % 5, 0, if i % 3 == 0 { "a" } else { "" })).collect();
+                let r = Range::parse(">=3.0.0-a <90").unwrap();
+                assert!(r.max_satisfying(&list).is_some() && r.min_satisfying(&list).is_some());
+                let mut l2 = list.clone();
+                l2.sort();
+            }
+            _ => {
+                // every second exact version removed from the list of all
+                let half = Range::parse((1..=n).filter(|i| i % 2 == 0).map(|i| format!("{}.0.0", i)).collect::<Vec<_>>().join("||")).unwrap();
+                let m = n.min(1500); // quadratic: keep the operands moderate
+                let a = Range::parse(exacts_text(m)).unwrap();
+                let r = a.difference(&half).expect("odd ones remain");
+                assert!(r.satisfies(&ver(1, 0, 0, "")) && !r.satisfies(&ver(2, 0, 0, "")));
+            }
+        }
+    });
+    match h.expect("spawn").join() {
+        Ok(()) => std::process::exit(0),
+        Err(_) => std::process::exit(3),
+    }
+}
+
+/// parent side: one child per case; returns the number of cases run
+pub fn deep_family(tier: &str, sink: &Sink) -> u64 {
+    let n: u64 = if tier == "thorough" { 10000 } else { 2500 };
+    let exe = match std::env::current_exe() {
+        Ok(e) => e,
+        Err(_) => return 0,
+    };
+    let results: Vec<(String, Option<String>)> = DEEP_CASES
+        .par_iter()
+        .map(|case| {
+            crate::report::beat();
+            let child = std::process::Command::new(&exe).arg("c06-deep").arg(case).arg(n.to_string()).stdout(std::process::Stdio::null()).stderr(std::process::Stdio::piped()).spawn();
+            let mut child = match child {
+                Ok(c) => c,
+                Err(e) => return (case.to_string(), Some(format!("MACHINERY: cannot start the child process: {}", e))),
+            };
+            let t0 = Instant::now();
+            let status = loop {
+                match child.try_wait() {
+                    Ok(Some(st)) => break Some(st),
+                    Ok(None) => {
+                        if t0.elapsed() > Duration::from_secs(240) {
+                            let _ = child.kill();
+                            let _ = child.wait();
+                            break None;
+                        }
+                        std::thread::sleep(Duration::from_millis(20));
+                        crate::report::beat();
+                    }
+                    Err(_) => break None,
+                }
+            };
+            let mut err = String::new();
+            if let Some(mut e) = child.stderr.take() {
+                use std::io::Read;
+                let _ = e.read_to_string(&mut err);
+            }
+            let err: String = err.lines().filter(|l| !l.trim().is_empty()).take(2).collect::<Vec<_>>().join(" / ").chars().take(200).collect();
+            let verdict = match status {
+                None => Some(format!("does not return within 240 s ({} alternatives)", n)),
+                Some(st) if st.success() => None,
+                Some(st) => {
+                    use std::os::unix::process::ExitStatusExt;
+                    match (st.code(), st.signal()) {
+                        (Some(3), _) => Some(format!("panics ({} alternatives): {}", n, err)),
+                        (_, Some(sig)) => Some(format!("the process dies with signal {} ({} alternatives, {} KiB stack): {}", sig, n, DEEP_STACK / 1024, err)),
+                        (c, _) => Some(format!("the child exits with {:?}: {}", c, err)),
+                    }
+                }
+            };
+            (case.to_string(), verdict)
+        })
+        .collect();
+    for (case, verdict) in &results {
+        if let Some(v) = verdict {
+            if v.starts_with("MACHINERY") {
+                eprintln!("{}", v);
+                std::process::exit(2);
+            }
+            sink.report(&format!("deep:{}", case), format!("case={}|n={}", case, n), json!({"engine":"B6","kind":"deep","case":case,"n":n,"tier":tier}), v.clone(), "returns normally, whatever the number of alternatives".into());
+        }
+    }
+    results.len() as u64
 }
 
 fn time_once(s: &str) -> f64 {
@@ -561,6 +684,9 @@ pub fn replay(case: &Value, sink: &Sink) {
         }
         "growth" => {
             let _ = growth_measurement(sink);
+        }
+        "deep" => {
+            let _ = deep_family(case["tier"].as_str().unwrap_or("quick"), sink);
         }
         "version-pair" => {
             let (Ok(a), Ok(b)) = (Version::parse(case["a"].as_str().unwrap_or("")), Version::parse(case["b"].as_str().unwrap_or(""))) else { return };
